@@ -17,6 +17,7 @@ var Providers = []string{"icanhazip.com", "ipinfo.io", "checkip.amazonaws.com", 
 
 // DNSCall is one resolver invocation.
 type DNSCall struct {
+	Caller        string // name of the calling goroutine when it is a registered call goroutine
 	Addr          string
 	N             int
 	CallAt, RetAt time.Duration
@@ -34,7 +35,8 @@ var errDNS = errors.New("verif: scripted resolver failure")
 
 // lookupAddr is installed as reversedns.LookupAddrFn.
 func (w *World) lookupAddr(ctx context.Context, addr string) ([]string, error) {
-	r := w.park(&op{kind: opDNS, actor: "dns:" + addr, key: addr, ctx: ctx})
+	gid, _ := curGID()
+	r := w.park(&op{kind: opDNS, actor: "dns:" + addr, key: addr, ctx: ctx, gid: gid})
 	return r.names, r.err
 }
 
@@ -91,7 +93,7 @@ func dnsNames(addr string, nth, n int) []string {
 func (w *World) performDNS(o *op, now time.Duration) {
 	script := w.dnsScript(o)
 	base, args := splitForm(script)
-	rec := &DNSCall{Addr: o.key, N: o.nth, CallAt: o.parkAt, RetAt: now, Script: script}
+	rec := &DNSCall{Addr: o.key, N: o.nth, CallAt: o.parkAt, RetAt: now, Script: script, Caller: w.nameOf(o.gid)}
 	w.dns.Calls = append(w.dns.Calls, rec)
 	var res opResult
 	switch {
@@ -123,6 +125,7 @@ func (w *World) performDNS(o *op, now time.Duration) {
 
 // HTTPConn records one dialled provider connection.
 type HTTPConn struct {
+	Caller        string
 	Provider      int // index in Providers, -1 unknown
 	Host          string
 	N             int // n-th dial to this provider
@@ -164,7 +167,8 @@ var errRefused = errors.New("verif: connection refused by scripted provider")
 // dialTLS is installed as http.DefaultTransport's DialTLSContext.
 func (w *World) dialTLS(ctx context.Context, network, addr string) (net.Conn, error) {
 	host, _, _ := net.SplitHostPort(addr)
-	r := w.park(&op{kind: opHTTPDial, actor: "http:" + host, key: host, ctx: ctx})
+	gid, _ := curGID()
+	r := w.park(&op{kind: opHTTPDial, actor: "http:" + host, key: host, ctx: ctx, gid: gid})
 	if r.err != nil {
 		return nil, r.err
 	}
@@ -224,7 +228,10 @@ func (w *World) performHTTP(o *op, now time.Duration) {
 	switch o.kind {
 	case opHTTPDial:
 		script := w.httpScript(o.key, o.nth)
-		rec := &HTTPConn{Provider: providerIndex(o.key), Host: o.key, N: o.nth, DialAt: now, Script: script}
+		rec := &HTTPConn{Provider: providerIndex(o.key), Host: o.key, N: o.nth, DialAt: now, Script: script, Caller: w.nameOf(o.gid)}
+		if v, ok := o.ctx.Value(callerKey{}).(string); ok {
+			rec.Caller = v // the request context carries the caller's name through net/http
+		}
 		w.httpSt.Conns = append(w.httpSt.Conns, rec)
 		base, _ := splitForm(script)
 		w.Log.add(now, o.actor, "dial", strconv.Itoa(o.nth)+" "+base)
@@ -327,3 +334,9 @@ func (c *simConn) RemoteAddr() net.Addr               { return simAddr(c.rec.Hos
 func (c *simConn) SetDeadline(t time.Time) error      { return nil }
 func (c *simConn) SetReadDeadline(t time.Time) error  { return nil }
 func (c *simConn) SetWriteDeadline(t time.Time) error { return nil }
+
+func (w *World) nameOf(gid uint64) string {
+	w.mu.Lock()
+	defer w.mu.Unlock()
+	return w.gidName[gid]
+}
